@@ -9,28 +9,33 @@ package tlog
 //@   requires w != nil
 //@   ensures  (err != nil) == (w.ByteWriter == nil)
 //@   ensures  err == nil ==> w.frameWriter != nil && frame.SpecWriterReady(w.frameWriter) &&
-//@              frame.SpecWriterTarget(w.frameWriter) == w.ByteWriter && frame.SpecWriterDialect(w.frameWriter) == w.DialectRW
+//@              frame.SpecWriterTarget(w.frameWriter) == io.Writer(&w.buf) && frame.SpecWriterDialect(w.frameWriter) == w.DialectRW
 //@   modifies w.frameWriter
 
+// An entry is assembled in the writer's scratch buffer (timestamp, then the frame through the frame writer) and
+// handed to the file in ONE write; a frame that cannot be encoded never reaches the file.
+// Log of one call: 0 = Reset of the scratch buffer, 1 = the timestamp into it, 2 = the frame into it (frame writer),
+// 3 = the whole entry to the file.
 //@ func (*Writer).Write
 //@   let fr = entry.Frame
-//@   let refused = (old(frame.SpecFrameMessage(entry.Frame)) == nil || frame.SpecRefusedByVersion(entry.Frame) ||
+//@   let refused = (old(frame.SpecFrameMessage(entry.Frame)) == nil || old(frame.SpecRefusedByVersion(entry.Frame)) ||
 //@                  (!old(frame.SpecIsRaw(frame.SpecFrameMessage(entry.Frame))) && (w.DialectRW == nil ||
 //@                    !frame.UfDialectHas(w.DialectRW, old(frame.SpecFrameMessage(entry.Frame).GetID())))))
 //@   requires w != nil && w.ByteWriter != nil && w.frameWriter != nil && frame.SpecWriterReady(w.frameWriter)
-//@   requires frame.SpecWriterTarget(w.frameWriter) == w.ByteWriter && frame.SpecWriterDialect(w.frameWriter) == w.DialectRW
+//@   requires frame.SpecWriterTarget(w.frameWriter) == io.Writer(&w.buf) && w.ByteWriter != io.Writer(&w.buf)
+//@   requires frame.SpecWriterDialect(w.frameWriter) == w.DialectRW
 //@   requires entry != nil && entry.Frame != nil && frame.SpecSigFieldOK(entry.Frame)
 //@   requires frame.SpecFrameMessage(entry.Frame) != nil && frame.SpecIsRaw(frame.SpecFrameMessage(entry.Frame)) ==>
 //@              frame.SpecRawPayloadLen(entry.Frame) <= 255
-//@   ensures  [no-partial-entry] refused ==> err != nil && logLen() == 0
-//@   ensures  [at-most-two] logLen() <= 2
-//@   ensures  [timestamp-first] logLen() >= 1 ==> logN(0) == 8 && logIsTo(0, w.ByteWriter) &&
-//@              (forall k int :: 0 <= k && k < 8 ==> logByte(0, k) == specBE64Byte(unixMicro(entry.Time), k))
-//@   ensures  [frame-second] logLen() == 2 ==> logN(1) == frame.SpecFrameLen(fr) &&
-//@              (forall j int :: 0 <= j && j < frame.SpecFrameLen(fr) ==> logByte(1, j) == frame.SpecFrameWire(fr, j))
-//@   ensures  [errors-reported] logLen() == 1 ==> err != nil
-//@   ensures  [errors-reported-2] logLen() == 2 ==> err == logErr(1)
-//@   ensures  [success] err == nil ==> logLen() == 2 && logErr(0) == nil
+//@   ensures  [no-partial-entry] refused ==> err != nil && logLen() == 2 && !logIsTo(0, w.ByteWriter) && !logIsTo(1, w.ByteWriter)
+//@   ensures  [file-written-at-most-once-and-last] logLen() <= 4 && !logIsTo(0, w.ByteWriter) && !logIsTo(1, w.ByteWriter) &&
+//@              (logLen() >= 3 ==> !logIsTo(2, w.ByteWriter)) && (logLen() == 4 ==> logIsTo(3, w.ByteWriter) && logCallee(3, "io.Writer.Write"))
+//@   ensures  [whole-entry-in-one-write] logLen() == 4 ==> logN(3) == 8 + frame.SpecFrameLen(fr) &&
+//@              (forall k int :: 0 <= k && k < 8 ==> logByte(3, k) == specBE64Byte(unixMicro(entry.Time), k)) &&
+//@              (forall j int :: 0 <= j && j < frame.SpecFrameLen(fr) ==> logByte(3, 8+j) == frame.SpecFrameWire(fr, j))
+//@   ensures  [errors-reported] logLen() < 4 ==> err != nil
+//@   ensures  [transport-error-reported] logLen() == 4 ==> err == logErr(3)
+//@   ensures  [success] err == nil ==> logLen() == 4
 //@   modifies frame.SpecWriterBuf(w.frameWriter)[:], ghost:log,
 //@            *frame.SpecMessageField(entry.Frame) when old(frame.SpecFrameMessage(entry.Frame)) != nil && !old(frame.SpecIsRaw(frame.SpecFrameMessage(entry.Frame))),
 //@            *frame.SpecChecksumField(entry.Frame) when old(frame.SpecFrameMessage(entry.Frame)) != nil && !old(frame.SpecIsRaw(frame.SpecFrameMessage(entry.Frame)))
